@@ -102,6 +102,27 @@ pub fn engines() -> Vec<Engine> {
         init: Some(crate::argvgen::init),
         eval_counter: Some("executions"),
         shards: 1,
+    },
+    Engine {
+        id: "C12",
+        level: "exploration",
+        generate: crate::c12::generate,
+        execute: crate::c12::execute,
+        shrink: crate::c12::shrink,
+        runs_quick: 500,
+        runs_thorough: 40_000,
+        cap_thorough_secs: 1200,
+        rule: "one evaluation = one simulated pipeline scenario: a producer (zerv version / flow on a simulated git history, on --source none with hostile overrides - quotes, backslashes, newlines, non-BMP text, nested custom JSON, numeric edge values, all schema presets and custom RON schemas - or a literal document normalised by one hop) emits a Zerv RON document; the simulator delivers it in seeded chunks to 1-3 consumer hops at a frozen and at an advanced simulated instant and checks byte-identical re-emission and piped == direct for semver, pep440 and two templates; then 12-26 damaged deliveries (truncation at any byte, bit flip, dropped / duplicated span, structural schema rewrite) must each be refused cleanly or - if accepted - yield a placement-valid fixed point, and schema rewrites that violate the placement rules must be refused; distinct = distinct (document hash, transport mode, clock class or outcome) triples with at least one non-default vars field",
+        assumptions: &[
+            "the `for all field values` reading is covered only as far as the producers reach (overrides, histories, presets, custom schemas); structural rewrites are document mutation, i.e. input generation, and are labelled as such",
+            "placement rules are restated independently in zsim (zron.rs) from the property text; documents are read back with the ron crate into structures declared in the harness",
+            "direct renderings are taken at the producer's instant, piped renderings at the consumer's instant",
+        ],
+        real_vs_stub: "real: zerv producer and consumer processes built from /repo's working tree, /usr/bin/git for git-backed producers, kernel pipes; simulated: the pipe between the two processes (chunking, truncation, corruption, rewriting), the wall clock of each hop; oracle: byte equality, direct-vs-piped equality, independent RON reader and placement validator",
+        required_probes: &[],
+        init: Some(crate::argvgen::init),
+        eval_counter: None,
+        shards: 1,
     }]
 }
 
